@@ -123,6 +123,16 @@ func runCase(res *vkit.Result, c Case) {
 	case "rps-early":
 		perInstance = false
 		rpsDur = startupDur/2 + time.Millisecond
+	case "slow-first-shot":
+		// discard_overflow on and the first shot of instance 0 takes 2.3 s: that instance discards
+		// what became 2 s late and goes on — an instance, once started, keeps firing
+		rpsDur = startupDur + 2600*time.Millisecond
+		plan.ShotDur = func(inst, shot, ammo int) time.Duration {
+			if inst == 0 && shot == 0 {
+				return 2300 * time.Millisecond
+			}
+			return 0
+		}
 	case "ammo-early":
 		prov.Items = c.K
 	case "fail-k":
@@ -208,7 +218,7 @@ func runCase(res *vkit.Result, c Case) {
 	m := vkit.NewMetrics()
 	eng := engine.New(vkit.NopLog(), m, engine.Config{Pools: []engine.InstancePoolConfig{{
 		ID: "p", Provider: prov, Aggregator: aggr, NewGun: plan.NewGun, RPSPerInstance: perInstance,
-		NewRPSSchedule: newSched, StartupSchedule: startup, DiscardOverflow: false,
+		NewRPSSchedule: newSched, StartupSchedule: startup, DiscardOverflow: c.Scenario == "slow-first-shot",
 	}}})
 	done := make(chan error, 1)
 	runStart := time.Now()
@@ -299,7 +309,7 @@ func runCase(res *vkit.Result, c Case) {
 		fail("too-many", "%d instances started, profile holds %d tokens", S, total)
 	}
 	switch c.Scenario {
-	case "free", "free-short", "shared-long":
+	case "free", "free-short", "shared-long", "slow-first-shot":
 		if S != total {
 			fail("not-all-started", "%d instances started, profile holds %d tokens and nothing cut the start short", S, total)
 		}
@@ -310,6 +320,12 @@ func runCase(res *vkit.Result, c Case) {
 			if got, want := plan.ShotCount(), int64(S*perTokens); got != want {
 				fail("kept-firing", "%d instances with %d tokens each fired %d shots, want %d", S, perTokens, got, want)
 			}
+		}
+		if c.Scenario == "slow-first-shot" {
+			if got, want := plan.ShotCount()+aggr.Discarded.Load(), int64(S*perTokens); got != want {
+				fail("kept-firing", "%d instances with %d tokens each fired %d shots and discarded %d tokens, want %d in all", S, perTokens, plan.ShotCount(), aggr.Discarded.Load(), want)
+			}
+			res.Count("discarded_by_slow_instance", aggr.Discarded.Load())
 		}
 	}
 	res.Count("scenario_"+c.Scenario, 1)
@@ -338,6 +354,8 @@ var seeds = []Case{
 	{Startup: vkit.SchedSpec{Kind: "instance_step", A: 1, B: 4, N: 1, DurMs: 150}, Scenario: "free-short"},
 	{Startup: vkit.SchedSpec{Kind: "const", A: 20, DurMs: 400}, Scenario: "free-short"},
 	{Startup: vkit.SchedSpec{Kind: "const", A: 20, DurMs: 320}, Scenario: "free"},
+	{Startup: vkit.SchedSpec{Kind: "once", N: 3}, Scenario: "slow-first-shot"},
+	{Startup: vkit.SchedSpec{Kind: "instance_step", A: 1, B: 3, N: 1, DurMs: 100}, Scenario: "slow-first-shot"},
 	{Startup: vkit.SchedSpec{Kind: "composite", Parts: []vkit.SchedSpec{{Kind: "once", N: 2}, {Kind: "const", A: 0, DurMs: 100}, {Kind: "once", N: 3}}}, Scenario: "free"},
 }
 
@@ -349,6 +367,9 @@ func main() {
 	scen := []string{"free", "free-short", "free-short", "shared-long", "ammo-early", "rps-early", "fail-k", "cancel"}
 	for i := 0; i < n; i++ {
 		c := Case{Startup: genStartup(rng, 0), Scenario: scen[rng.Intn(len(scen))], Seed: rng.Int63()}
+		if i%40 == 13 {
+			c.Scenario = "slow-first-shot"
+		}
 		offs, dur := startupModel(c.Startup)
 		if len(offs) == 0 {
 			continue
